@@ -1,5 +1,5 @@
 # sourced by the scripts in bin/
-export VERIF_ROOT="${VERIF_ROOT:-/verif}"
+export VERIF_ROOT="${VERIF_ROOT:-$(cd "$(dirname "${BASH_SOURCE[0]}")/.." && pwd)}"
 export VERIF_REPO="${VERIF_REPO:-/repo}"
 GO_TC=$(ls -d /root/go/pkg/mod/golang.org/toolchain@v0.0.1-go1.26.3.linux-amd64/bin/go 2>/dev/null | head -1)
 export GO="${GO_TC:-go}"
